@@ -27,7 +27,7 @@ def harness():
     return _H['h']
 
 
-SAFE_OPS = [op for op in NAMES if op >= 0x4f and op not in (0xac, 0xad, 0xae, 0xaf, 0xba, 0xab)]
+SAFE_OPS = [op for op in NAMES if op >= 0x4f and op not in (0xac, 0xad, 0xae, 0xaf, 0xba)]
 
 
 @st.composite
@@ -61,7 +61,9 @@ def cases(draw):
     toks = draw(st.lists(token(), min_size=1, max_size=8))
     # an earlier `exec` issued right before (no step in between) - often a failing one: what it leaves behind must not leak into the next
     pre = draw(st.one_of(st.none(), st.none(), st.lists(token(), min_size=1, max_size=3),
-                         st.sampled_from([[('hex', b'\x01\x02\x03\x04\x05', ''), ('op', 'OP_1ADD', 0x8b)], [('op', 'OP_RETURN', 0x6a)], [('op', 'OP_2DROP', 0x6d), ('op', 'OP_2DROP', 0x6d), ('op', 'OP_2DROP', 0x6d)],
+                         st.sampled_from([[('op', 'OP_CODESEPARATOR', 0xab), ('hex', b'\x01\x02\x03\x04\x05', ''), ('op', 'OP_1ADD', 0x8b)], [('op', '0', 0x00), ('op', 'OP_IF', 0x63), ('op', 'OP_CODESEPARATOR', 0xab), ('op', 'OP_ENDIF', 0x68)],
+                                          [('op', 'OP_CODESEPARATOR', 0xab), ('op', 'OP_RETURN', 0x6a)], [('op', 'OP_CODESEPARATOR', 0xab)],
+                                          [('hex', b'\x01\x02\x03\x04\x05', ''), ('op', 'OP_1ADD', 0x8b)], [('op', 'OP_RETURN', 0x6a)], [('op', 'OP_2DROP', 0x6d), ('op', 'OP_2DROP', 0x6d), ('op', 'OP_2DROP', 0x6d)],
                                           [('int', 2147483648), ('op', 'OP_NEGATE', 0x8f)], [('op', 'OP_FROMALTSTACK', 0x6c), ('op', 'OP_FROMALTSTACK', 0x6c)]])))
     return (sess, k, toks, pre)
 
@@ -138,22 +140,31 @@ def check_case(case, ctx, h=None):
         stt.execdata['weight'] = pre.get('w')
     compiled = A.compile_tokens(toks)
     exp_err = None
+    cs = -1
     try:
-        cs = 0
         for entry in R.decode(compiled):
             cs = R.step(stt, compiled, entry, cs)
     except R.ScriptFail as f:
         exp_err = R.ERR.get(f.code, f.code)
     except R.NumErr as f:
         exp_err = 'exc:' + str(f)
+    codesep_executed = cs != -1
     changed = (post['alt'] != pre['alt']) or (post['vf'] != pre['vf']) or exp_err is not None
     nontriv = k > 0 and changed
     ctx.case(repr(case_json(case)), nontriv, dict(case_json(case), expected_error=exp_err), sess['kind'])
     ctx.count('exec-fails' if exp_err else 'exec-ok')
     # position and remaining script untouched - always
-    for f_ in ('pc', 'seq', 'slen', 'succ', 'p2sh', 'cs', 'done'):
+    for f_ in ('pc', 'seq', 'slen', 'succ', 'p2sh', 'done'):
         if post.get(f_) != pre.get(f_):
             raise Violation(case, 'exec changed the session position / script (%s: %r -> %r)' % (f_, pre.get(f_), post.get(f_)), observed=post.get(f_), expected=pre.get(f_))
+    # the start of the signed script code: an EXECUTED code separator among the operations marks the current position of the debugged script
+    # (what the same operation would do as the next operation of the script); anything else - also a code separator in a skipped branch - leaves it
+    want_cs = pre['pc'] if codesep_executed else pre['cs']
+    if codesep_executed:
+        ctx.count('exec-executes-codeseparator')
+    if post.get('cs') != want_cs:
+        raise Violation(case, 'start of the signed script code after exec is %r, expected %r (%s)' % (post.get('cs'), want_cs, 'a code separator was executed' if codesep_executed else 'no code separator was executed'),
+                        observed=post.get('cs'), expected=want_cs)
     if exp_err:
         if ex['acc']:
             raise Violation(case, 'exec %r succeeded, the same operations in a script fail with %r' % (texts, exp_err), observed=[post['st'][-3:], post['alt'][-3:], post['vf']], expected=exp_err)
@@ -186,7 +197,7 @@ def check_case(case, ctx, h=None):
         rest = []
         err = None
         try:
-            cs = pre['cs']
+            cs = want_cs
             for e in entries:
                 if e is not None and e[2] <= pre['pc']:
                     continue
@@ -208,13 +219,82 @@ def check_case(case, ctx, h=None):
                             observed=[r['rest'][-2:], r['err']], expected=[rest[-2:], err])
 
 
+NOOP_PHRASES = [[('op', 'OP_NOP', 0x61)], [('int', 1), ('op', 'OP_DROP', 0x75)], [('op', '0', 0x00), ('op', 'OP_IF', 0x63), ('op', 'OP_CODESEPARATOR', 0xab), ('op', 'OP_ENDIF', 0x68)],
+                [('op', '0', 0x00), ('op', 'OP_IF', 0x63), ('op', 'OP_RETURN', 0x6a), ('op', 'OP_ELSE', 0x67), ('op', 'OP_ENDIF', 0x68)],
+                [('int', 7), ('op', 'OP_TOALTSTACK', 0x6b), ('op', 'OP_FROMALTSTACK', 0x6c), ('op', 'OP_DROP', 0x75)], [('op', 'OP_DEPTH', 0x74), ('op', 'OP_DROP', 0x75)],
+                [('int', 1), ('op', 'OP_NOTIF', 0x64), ('op', 'OP_CODESEPARATOR', 0xab), ('op', 'OP_CHECKSIG', 0xac), ('op', 'OP_ENDIF', 0x68)],
+                [('int', 1), ('int', 1), ('op', 'OP_EQUALVERIFY', 0x88)]]
+
+
+@st.composite
+def noop_cases(draw):
+    sess = draw(st.one_of(SS.legacy_spend(), SS.legacy_spend(), SS.tapscript_spend(), SS.codesep_mock()))
+    return (sess, draw(st.integers(0, 14)), draw(st.sampled_from(NOOP_PHRASES)))
+
+
+def noop_json(case):
+    sess, k, toks = case
+    return dict(session=SS.to_json(sess) if hasattr(SS, 'to_json') else {a: (b.hex() if isinstance(b, bytes) else b) for a, b in sess['kw'].items() if not isinstance(b, list)}, kind=sess['kind'], k=k, tokens=_tj(toks))
+
+
+def check_noop(case, ctx, h=None):
+    """metamorphic: in a session with real (or mocked) signature checks, an `exec` whose operations leave stack, alt stack and condition stack
+    as they were - including a code separator or a signature opcode inside a skipped branch - changes nothing that follows: the remaining
+    steps and the outcome are those of the same session without the exec"""
+    sess, k, toks = case
+    h = h or harness()
+    kw = dict(sess['kw'])
+    kw['finish'] = 1
+    kw['cmds'] = ','.join(['s'] * k)
+    base = h.req(kvline('session', **kw))
+    kw['cmds'] = ','.join(['s'] * k + ['e:' + '+'.join(A.render(t).encode().hex() for t in toks)])
+    r = h.req(kvline('session', **kw))
+    for g in (base, r):
+        if 'timeout' in g:
+            ctx.inconclusive += 1
+            return
+        if 'crash' in g or 'exit' in g:
+            raise Violation(case, 'harness died: %r' % g, observed=g)
+    if 'refused' in base or 'refused' in r:
+        return
+    if any(not e['acc'] for e in base['log'][:k]):
+        ctx.count('prefix-ended-early')
+        return
+    ex = r['log'][k]
+    pre = r['log'][k - 1]['d'] if k else r['init']
+    ctx.case(repr(noop_json(case)), k > 0 and bool(base['rest']), noop_json(case), 'noop-exec:' + sess['kind'])
+    if pre.get('vf') and '0' in pre['vf']:
+        ctx.count('noop-exec-inside-skipped-branch')
+        return      # inside a skipped branch the phrase's IF/ENDIF nest differently; the differential campaign covers that
+    if any(t[0] == 'op' and t[2] == 0xab for t in toks) and pre.get('sv') == R.BASE and (sess['kw'].get('flags', SS.STD) & F['CONST_SCRIPTCODE']):
+        # script rule: under CONST_SCRIPTCODE a legacy script must not contain OP_CODESEPARATOR, executed or not - exec reports exactly that
+        ctx.count('noop-exec:codeseparator-rejected-in-legacy')
+        if ex['acc'] or ex['err'] != R.ERR['OP_CODESEPARATOR']:
+            raise Violation(case, 'exec of a code separator in a legacy session under CONST_SCRIPTCODE: %r' % (ex['err'] or 'accepted'), observed=ex, expected=R.ERR['OP_CODESEPARATOR'])
+        return
+    if not ex['acc']:
+        if pre.get('done'):
+            return
+        raise Violation(case, 'a stack-neutral exec failed: %s' % (ex['err'] or ex['exc']), observed=ex)
+    for f_ in ('st', 'alt', 'vf', 'pc', 'seq', 'cs', 'done'):
+        if ex['d'].get(f_) != pre.get(f_):
+            raise Violation(case, 'a stack-neutral exec changed %s: %r -> %r' % (f_, pre.get(f_), ex['d'].get(f_)), observed=ex['d'].get(f_), expected=pre.get(f_))
+    if r['rest'] != base['rest'] or r['err'] != base['err']:
+        raise Violation(case, 'after a stack-neutral exec the session continues differently: outcome %r, without the exec %r' % (r['err'] or 'ok', base['err'] or 'ok'),
+                        observed=[r['rest'][-2:], r['err']], expected=[base['rest'][-2:], base['err']])
+
+
+def w_noop(ctx, wid, seed, examples):
+    core.hyp_campaign(ctx, 'exec-noop', noop_cases(), check_noop, examples, seed, noop_json)
+
+
 def w_exec(ctx, wid, seed, examples):
     core.hyp_campaign(ctx, 'exec', cases(), check_case, examples, seed, case_json)
 
 
 def run(tier, t0):
     n = 1500 if tier == 'quick' else 40000
-    m = core.parallel(PID, [(w_exec, dict(examples=n)) for _ in range(core.WORKERS)])
+    m = core.parallel(PID, [(w_exec, dict(examples=n)) for _ in range(core.WORKERS)] + [(w_noop, dict(examples=n // 3)) for _ in range(max(2, core.WORKERS // 4))])
     return core.finish(PID, tier, m, RULE, t0, min_nontrivial=1000 if tier == 'quick' else 50000,
                        assumptions=['reference interpreter (vf/ref/script.py) on the pre-state read from the harness dump', 'token grammar of Instance::eval: opcode names, non-zero canonical decimals, bare even-length hex; a hex token means the minimal-form push of those bytes'])
 
